@@ -239,6 +239,10 @@ def check_readback(ctx, rx, src):
                 if any(SY.has_equivalent_substituents(m) or T.ring_diene_ct(m) or SY.symmetric_cage(m) or SY.symmetric_bridged_polycycle(m) for m in getattr(rx, role)):
                     ctx.exclude('canonical-string-gap', {'reaction': s})
                     continue
+                if any(T.ct_implied_by_neighbours(m) for m in getattr(rx, role)):
+                    # notation limit: a double bond left open between two labelled ones gets a label from any reader
+                    ctx.exclude('smiles-cannot-leave-a-bond-between-labelled-neighbours-open', {'reaction': s})
+                    continue
                 if any(_macrocycle_bond_at_small_ring_atom(m) for m in getattr(rx, role)):
                     # recorded finding: the label exists on the edited molecule but the reader's perception drops it
                     ctx.violation('readback-role-differs/double-bond-of-a-large-ring-at-an-atom-of-a-small-ring', '%s (%s)' % (s, role), w)
